@@ -187,10 +187,15 @@ def sync_lockfile():
         shutil.copy(src, dst)
 
 
+EXTRA_RUSTFLAGS = os.environ.get("VERIF_EXTRA_RUSTFLAGS", "")
+
+
 def build_harness(binname):
     """(re)build one driver binary against /repo's CURRENT working tree (path dependency), hooks on"""
     sync_lockfile()
     env = {"CARGO_NET_OFFLINE": "true", "VERIF_REPO": REPO}
+    if EXTRA_RUSTFLAGS:  # audit builds only (bin/coverage-audit): same cfg as harness/.cargo/config.toml plus the extra flags
+        env["RUSTFLAGS"] = "--cfg adlt_verif --check-cfg cfg(adlt_verif) " + EXTRA_RUSTFLAGS
     p = run(["cargo", "build", "--offline", "--bin", binname], cwd=HARNESS, env=env, timeout=1800, check=False)
     if p.returncode != 0:
         raise ToolError("harness build failed (does /repo compile?):\n" + (p.stdout or "")[-6000:])
@@ -201,7 +206,7 @@ def build_adlt_bin():
     """build the adlt binary from /repo's working tree with the hook guard on, into a /verif-owned target dir"""
     tdir = os.path.join(HARNESS, "target")
     env = {"CARGO_NET_OFFLINE": "true", "CARGO_TARGET_DIR": tdir,
-           "RUSTFLAGS": "--cfg adlt_verif --check-cfg cfg(adlt_verif)"}
+           "RUSTFLAGS": ("--cfg adlt_verif --check-cfg cfg(adlt_verif) " + EXTRA_RUSTFLAGS).strip()}
     p = run(["cargo", "build", "--offline", "--bin", "adlt", "--config", "profile.dev.opt-level=1",
              "--config", "profile.dev.debug=false"], cwd=REPO, env=env, timeout=1800, check=False)
     if p.returncode != 0:
